@@ -104,6 +104,8 @@ structure Srv where
   L : Nat
   /-- name (as a number) of the connection with id `i`: what `snprintf("-%s#%d")` + truncation make of it -/
   nameOf : Nat → Nat
+  /-- does a loop run the functors still queued when it leaves `loop()`? (`init` takes it from the source) -/
+  drain : Bool := finalDrain
   q : Nat → List Task := fun _ => []
   /-- functors of the current batch that loop `l` has already run (their references are still held) -/
   done : Nat → List Task := fun _ => []
@@ -141,8 +143,12 @@ def Srv.held (s : Srv) (c : Nat) : Bool := s.inMap c || decide (0 < (s.conn c).u
 def mapInsert (m : List (Nat × Nat)) (k v : Nat) : List (Nat × Nat) := (k, v) :: m.filter (·.1 != k)
 def mapErase (m : List (Nat × Nat)) (k : Nat) : List (Nat × Nat) := m.filter (·.1 != k)
 def mapFind (m : List (Nat × Nat)) (k : Nat) : Option Nat := (m.find? (·.1 == k)).map (·.2)
+def insertKey (e : Nat × Nat) : List (Nat × Nat) → List (Nat × Nat)
+  | [] => [e]
+  | x :: xs => if e.1 ≤ x.1 then e :: x :: xs else x :: insertKey e xs
+
 /-- iteration order of `std::map`: ascending keys -/
-def mapOrder (m : List (Nat × Nat)) : List (Nat × Nat) := m.mergeSort (fun a b => a.1 ≤ b.1)
+def mapOrder (m : List (Nat × Nat)) : List (Nat × Nat) := m.foldr insertKey []
 
 /-- the last `TcpConnectionPtr` to `c` may just have been dropped by thread `l`: `~TcpConnection` -/
 def reapOne (s : Srv) (l c : Nat) : Srv :=
@@ -249,6 +255,15 @@ def releaseHead (s : Srv) (l : Nat) : Srv :=
 (`doPendingFunctors` returns, its local vector goes out of scope) -/
 def endBatch (s : Srv) (l : Nat) : Srv := iterate (fun s => releaseHead s l) (s.done l).length s
 
+/-- `~EventLoop` destroys a functor that was never run: its reference goes away -/
+def dropHead (s : Srv) (l : Nat) : Srv :=
+  match s.q l with
+  | [] => s
+  | t :: rest =>
+    match t.conn? with
+    | some c => reapOne { s with q := fun i => if i = l then rest else s.q i } l c
+    | none => { s with q := fun i => if i = l then rest else s.q i }
+
 /-- `TcpServer::newConnection` on the base loop (the acceptor's channel event) -/
 def accept (s : Srv) : Srv :=
   if !s.alive || s.exited 0 then s
@@ -293,6 +308,9 @@ inductive Action
   | postDestroy
   /-- loop `l` leaves `loop()` (base loop: any time; io loops: when the pool is destroyed with the server) -/
   | exit (l : Nat)
+  /-- the `EventLoop` object of loop `l` is destroyed (after `loop()` returned and the server is gone): the functors
+  still in its queue are destroyed without having run, first to last -/
+  | loopGone (l : Nat)
 deriving DecidableEq, Repr
 
 /-- channel events reach a connection that is registered, not yet taken down, on a running loop -/
@@ -324,8 +342,11 @@ def step (s : Srv) : Action → Srv
   | .postDestroy => if s.alive then s.enq 0 .srvDtor else s
   | .exit l =>
     if s.exited l || !(s.done l).isEmpty || (l != 0 && (s.alive || decide (s.L < l))) then s
-    else endBatch (iterate (fun s => runHead s l) (if finalDrain then (s.q l).length else 0)
+    else endBatch (iterate (fun s => runHead s l) (if s.drain then (s.q l).length else 0)
                     { s with exited := fun i => if i = l then true else s.exited i }) l
+
+  | .loopGone l =>
+    if s.exited l && (s.done l).isEmpty && !s.alive then iterate (fun s => dropHead s l) (s.q l).length s else s
 
 def run (s : Srv) (as : List Action) : Srv := as.foldl step s
 
